@@ -294,6 +294,6 @@ def run_case(case, rec, ctx) -> None:
 
 META = {
     "technique": "differential runtime observation of the five phase-space-factor implementations (lambdified and interpreted) against each other and a numpy closed form, stratified in s and mass ratio",
-    "level_text": "The identities of the statement are evaluated on the real classes through their generated NumPy code (float and complex input) and through an interpreter that unfolds evaluate(), on (s, m1, m2) drawn from seven s-strata (negative .. 1e7 x threshold, within 1e-9 of threshold) x four mass-ratio classes; held = no sampled point broke an identity beyond a conditioning-scaled tolerance.",
+    "level_text": "The identities of the statement are evaluated on the real classes through their generated NumPy code (float and complex input) and through an interpreter that unfolds evaluate(), on (s, m1, m2) drawn from seven s-strata (negative .. 1e7 x threshold, within 1e-9 of threshold) x four mass-ratio classes; held = no sampled point broke an identity beyond a conditioning-scaled tolerance. Equal masses are also supplied as one shared symbol and as numbers before doit().",
     "level_note": "s is a real symbol (no sign assumption) and masses are positive symbols; numpy float64; points exactly at s=0 and exactly at threshold are approached, not hit.",
 }
